@@ -36,6 +36,8 @@ func runC18(c *Ctx) {
 	defer runC07H2(c, "", "C18.W6")
 	c.Rule("C18.W7", "HPACK encoder table mirrors the peer across size changes: size<=maxSize kept eagerly, announced sizes were applied", 4)
 	defer c18HpackTable(c)
+	c.Rule("C18.W10", "a header block the connection HPACK encoder produced is always written", 4)
+	defer c18EncodedBlockWritten(c)
 	c.Rule("C18.W8", "a new client stream gets its send window and is registered for SETTINGS updates under one hold of the connection mutex", 1)
 	defer c18WindowInitAtomic(c)
 	c.NotDecided = append(c.NotDecided, "wire compatibility of frames and HPACK with golang.org/x/net/http2 (value-level)", "behaviour under concrete WINDOW_UPDATE schedules (liveness of the wait)", "SETTINGS handling that updates maxFrameSize / initial window")
